@@ -108,9 +108,22 @@ func backoffClampRule(c *Ctx, rule string) {
 				return true
 			}
 			// a phase of the computation in a function of its own: what it returns
-			if vs, _ := retsOf(x); vs != nil {
-				for _, rv := range vs {
-					if unclamped(rv, depth+1) {
+			if vs, bs := retsOf(x); vs != nil {
+				for i, rv := range vs {
+					if !unclamped(rv, depth+1) {
+						continue
+					}
+					// a phase that clamps by early return (if b <= cap { return b }; return cap): the
+					// return of the raw value must be guarded by "value <= MaxBackoff" HOLDING
+					es := m.Sym.Of(rv).String()
+					clamped := false
+					last := bs[i].Instrs[len(bs[i].Instrs)-1]
+					for _, l := range m.GuardsAt(last) {
+						if l.S.Op == "bin" && symMentions(l.S, "MaxBackoff") && (l.S.Name == "<=" || l.S.Name == "<") && l.S.Args[0].String() == es && l.Truth {
+							clamped = true
+						}
+					}
+					if !clamped {
 						return true
 					}
 				}
@@ -696,6 +709,46 @@ func breakerRule(c *Ctx, rule string) {
 		c.viol(rule, "breaker invokes the operation", firstInstr(callFn), "no call of the function parameter found")
 		return
 	}
+	// the roles of the breaker's fields, by type and use (not by name): the state word (its own named
+	// integer type), the time of the last failure (time.Time), the cooldown (time.Duration), and of
+	// the two plain integers the one the Call unit stores (count) and the one it does not (threshold)
+	fState, fLast, fCool, fCount, fThresh := "state", "lastFailureTime", "cooldownPeriod", "failures", "failureThreshold"
+	if bt := namedOf(callFn.Signature.Recv().Type()); bt != nil {
+		if stt, ok := bt.Underlying().(*types.Struct); ok {
+			storedInUnit := map[string]bool{}
+			for _, uf := range m.bodyFns(callFn) {
+				eachInstr(uf, func(in ssa.Instruction) {
+					if st, ok := in.(*ssa.Store); ok {
+						if fa, ok := st.Addr.(*ssa.FieldAddr); ok && namedOf(fa.X.Type()) == bt {
+							storedInUnit[stt.Field(fa.Field).Name()] = true
+						}
+					}
+				})
+			}
+			for i := 0; i < stt.NumFields(); i++ {
+				fd := stt.Field(i)
+				switch {
+				case isNamed(fd.Type(), "time", "Time"):
+					fLast = fd.Name()
+				case isNamed(fd.Type(), "time", "Duration"):
+					fCool = fd.Name()
+				case namedOf(fd.Type()) != nil && namedOf(fd.Type()).Obj().Pkg() == m.P.Leader.Pkg:
+					if b, ok := fd.Type().Underlying().(*types.Basic); ok && b.Info()&types.IsInteger != 0 {
+						fState = fd.Name()
+					}
+				default:
+					if b, ok := fd.Type().(*types.Basic); ok && b.Info()&types.IsInteger != 0 {
+						if storedInUnit[fd.Name()] {
+							fCount = fd.Name()
+						} else {
+							fThresh = fd.Name()
+						}
+					}
+				}
+			}
+		}
+	}
+	pState, pLast, pCool, pCount, pThresh := "CircuitBreaker."+fState, "CircuitBreaker."+fLast, "CircuitBreaker."+fCool, "CircuitBreaker."+fCount, "CircuitBreaker."+fThresh
 	c.check(len(la.MustBefore(op)) > 0, rule, "operation runs under the breaker mutex", op, "must-lockset %s", la.MustBefore(op))
 	// gating
 	gated := false
@@ -710,10 +763,17 @@ func breakerRule(c *Ctx, rule string) {
 			return
 		}
 		l := m.litOf(ifi.Cond, true, ifi)
-		if l.S.Op == "bin" && l.S.Name == "<" && symMentions(l.S.Args[0], "time.Since(CircuitBreaker.lastFailureTime)") && l.S.Args[1].String() == "CircuitBreaker.cooldownPeriod" {
+		// since < cooldown, or its complement cooldown <= since (if !cooledDown): `within` is the truth
+		// value of the literal on the edge where the cooldown has not elapsed
+		formA := l.S.Op == "bin" && l.S.Name == "<" && symMentions(l.S.Args[0], "time.Since("+pLast+")") && l.S.Args[1].String() == pCool
+		formB := l.S.Op == "bin" && l.S.Name == "<=" && symMentions(l.S.Args[1], "time.Since("+pLast+")") && l.S.Args[0].String() == pCool
+		if formB {
+			l.Truth = !l.Truth
+		}
+		if formA || formB {
 			gs := m.AllGuards(in, false)
 			open := hasLit(gs, true, func(s *Sym) bool {
-				return s.Op == "bin" && s.Name == "==" && symMentions(s, "CircuitBreaker.state") && (s.Args[0].String() == "1" || s.Args[1].String() == "1")
+				return s.Op == "bin" && s.Name == "==" && symMentions(s, pState) && (s.Args[0].String() == "1" || s.Args[1].String() == "1")
 			})
 			edge := map[bool]int{true: 0, false: 1}[l.Truth]
 			reach := false
@@ -731,6 +791,32 @@ func breakerRule(c *Ctx, rule string) {
 	if !gated {
 		c.viol(rule, "no invocation while open within the cooldown", firstInstr(callFn), "no `time.Since(lastFailureTime) < cooldownPeriod` test found")
 	}
+	// a setter shared by several places of the unit (transitionLocked(to)): a store of its parameter
+	// to the state word counts, at each call site in the unit, as a store of the argument
+	stateSetter := map[*ssa.Function]int{}
+	for _, f := range m.Funcs {
+		if f.Parent() != nil || f == callFn {
+			continue
+		}
+		idx, n := -1, 0
+		eachInstr(f, func(in ssa.Instruction) {
+			if st, ok := in.(*ssa.Store); ok {
+				n++
+				if m.Sym.Of(st.Addr).String() == "&"+pState {
+					if par, ok := st.Val.(*ssa.Parameter); ok {
+						for i, q := range f.Params {
+							if q == par {
+								idx = i
+							}
+						}
+					}
+				}
+			}
+		})
+		if idx >= 0 && n == 1 {
+			stateSetter[f] = idx
+		}
+	}
 	// state updates
 	var failStores, stateStores []string
 	eachUnit(func(in ssa.Instruction) {
@@ -739,6 +825,9 @@ func breakerRule(c *Ctx, rule string) {
 			return
 		}
 		a := m.Sym.Of(st.Addr).String()
+		if _, isSetter := stateSetter[st.Parent()]; isSetter && a == "&"+pState {
+			return // judged at the setter's call sites
+		}
 		gs := m.unitGuardsSubst(callFn, in)
 		errLit := "?"
 		for _, l := range gs {
@@ -747,19 +836,40 @@ func breakerRule(c *Ctx, rule string) {
 			}
 		}
 		switch a {
-		case "&CircuitBreaker.failures":
+		case "&" + pCount:
 			failStores = append(failStores, errLit+": "+m.Sym.Of(st.Val).String())
-		case "&CircuitBreaker.state":
+		case "&" + pState:
 			extra := ""
 			for _, l := range gs {
-				if symMentions(l.S, "CircuitBreaker.failureThreshold") {
+				if symMentions(l.S, pThresh) {
 					extra = " when " + l.String()
 				}
 			}
 			stateStores = append(stateStores, errLit+": "+m.Sym.Of(st.Val).String()+extra)
 		}
 	})
-	wantFail := map[string]bool{"error: (1 + CircuitBreaker.failures)": true, "success: 0": true}
+	eachUnit(func(in ssa.Instruction) {
+		call, ok := in.(*ssa.Call)
+		if !ok {
+			return
+		}
+		idx, ok := stateSetter[call.Call.StaticCallee()]
+		if !ok || idx >= len(call.Call.Args) {
+			return
+		}
+		gs := m.unitGuardsSubst(callFn, in)
+		errLit, extra := "?", ""
+		for _, l := range gs {
+			if l.S.Op == "bin" && l.S.Name == "==" && symMentions(l.S, "nil") && symMentions(l.S, "callv") {
+				errLit = map[bool]string{true: "success", false: "error"}[l.Truth]
+			}
+			if symMentions(l.S, pThresh) {
+				extra = " when " + l.String()
+			}
+		}
+		stateStores = append(stateStores, errLit+": "+m.Sym.Of(call.Call.Args[idx]).String()+extra)
+	})
+	wantFail := map[string]bool{"error: (1 + " + pCount + ")": true, "success: 0": true}
 	okFail := len(failStores) == 2
 	for _, s := range failStores {
 		if !wantFail[s] {
@@ -770,7 +880,7 @@ func breakerRule(c *Ctx, rule string) {
 	okState := false
 	hasOpen, hasClose := false, false
 	for _, s := range stateStores {
-		if s == "error: 1 when (CircuitBreaker.failureThreshold <= CircuitBreaker.failures)" {
+		if s == "error: 1 when ("+pThresh+" <= "+pCount+")" {
 			hasOpen = true
 		}
 		if s == "success: 0" {
@@ -795,10 +905,17 @@ func breakerRule(c *Ctx, rule string) {
 			if st, ok := in.(*ssa.Store); ok {
 				a := m.Sym.Of(st.Addr).String()
 				if k, isC := constInt(st.Val); isC && k == 0 {
-					if a == "&CircuitBreaker.failures" {
+					if a == "&"+pCount {
 						flag |= 1
 					}
-					if a == "&CircuitBreaker.state" {
+					if a == "&"+pState {
+						flag |= 2
+					}
+				}
+			}
+			if call, ok := in.(*ssa.Call); ok {
+				if idx, ok := stateSetter[call.Call.StaticCallee()]; ok && idx < len(call.Call.Args) {
+					if k, isC := constInt(call.Call.Args[idx]); isC && k == 0 {
 						flag |= 2
 					}
 				}
@@ -1248,10 +1365,19 @@ func retryLoopRule(c *Ctx, rule string) {
 				return
 			}
 			l := m.litOf(ifi.Cond, true, ifi)
-			if l.S.Op == "bin" && l.S.Name == "<" && strings.HasSuffix(l.S.Args[0].String(), ".MaxAttempts") && l.S.Args[1].String() == "0" {
+			a0 := ""
+			if l.S.Op == "bin" && len(l.S.Args) == 2 {
+				a0 = l.S.Args[0].String()
+				if l.S.Args[0].V != nil && l.S.Args[0].V.Parent() != nil {
+					a0 = m.symInUnit(rb, l.S.Args[0].V).String() // the limit handed to a checking helper
+				}
+			}
+			if l.S.Op == "bin" && l.S.Name == "<" && strings.HasSuffix(a0, ".MaxAttempts") && l.S.Args[1].String() == "0" {
 				nNeg++
 				edge := map[bool]int{true: 0, false: 1}[l.Truth]
 				var hit ssa.Instruction
+				m.descend = func(g *ssa.Function) bool { return containsFn(unit, g) }
+				defer func() { m.descend = nil }()
 				m.explore(in.Block(), edge, 0, func(x ssa.Instruction, flag int) (int, bool) {
 					if isInvocation(x) {
 						hit = x
